@@ -460,7 +460,8 @@ def data() -> dict:
               'init_written': shape['written'], 'gate_reserved': shape['gate_reserved'],
               'gate_checks_existing': shape['gate_checks_existing'], 'gate_refs': shape['gate_refs'],
               'field_is_instance': inst_body, 'template_suffix': template_suffix(),
-              'index_top_level_only': loader_shape() in ('top', 'top_any'), 'chain_ends_at_any': loader_shape() == 'top_any'})
+              'index_top_level_only': loader_shape() in ('top', 'top_any'), 'chain_ends_at_any': loader_shape() == 'top_any',
+              'loader_shape': loader_shape()})
     return d
 
 
